@@ -6,6 +6,7 @@
 mod dfa;
 mod lifecycle;
 mod observe;
+mod pathalg;
 mod replay;
 mod total;
 mod walk;
@@ -21,6 +22,7 @@ fn main() {
         "replay" => replay::run(&args[1..]),
         "lifecycle" => lifecycle::run(&args[1..]),
         "walk" => walk::run(&args[1..]),
+        "pathalg" => pathalg::run(&args[1..]),
         "total" => total::run(&args[1..]),
         "total-worker" => total::worker(),
         other => {
